@@ -3,6 +3,7 @@
 //! stdin, one case per line:
 //!   2 <tag> <a> <b>       pair row
 //!   3 <tag> <a> <b> <c>   triple row (associativity / transitivity material)
+//!   O <tag> <a> <b>       the consumers of `Ord` (types that implement it; `-` otherwise), see `ord_ops`
 //!   B <tag>               bottom / top of a BoundedLattice (or `none`)
 //!   T                     the tag table: tag=type_name|...
 //! stdout: one line per case, fields separated by " ; " (see `pair`, `triple`), `panic` if the code panicked.
@@ -301,10 +302,45 @@ fn triple<T: Lattice + Clone + PartialEq + Val>(toks: &mut Toks) -> String {
    f.join(" ; ")
 }
 
-fn run<T: Lattice + Clone + PartialEq + Val>(mode: &str, toks: &mut Toks, cmpf: CmpF<T>, bndf: BndF<T>) -> String {
+/// Ord row: cmp(a,b) ; cmp(b,a) ; Ord::max(a,b) ; Ord::min(a,b) ; [a,b].sort_by(Ord::cmp) as `x | y` ; [a,b].sort() as `x | y` ;
+/// BTreeSet::from([a,b]) in iteration order as `x | y` or `x` ; [a,b].binary_search(b) after sort_by (found index or `!`) ;
+/// std::cmp::max_by(a,b,Ord::cmp) ; a.clamp(lo, hi) for the pair sorted by cmp (asserts lo <= hi with PartialOrd)
+fn ord_ops<T: Ord + Clone + Val>(toks: &mut Toks) -> String {
+   let a = T::parse(toks);
+   let b = T::parse(toks);
+   assert!(toks.done(), "trailing tokens");
+   let mut f: Vec<String> = Vec::new();
+   f.push(ord_s(Some(Ord::cmp(&a, &b))).into());
+   f.push(ord_s(Some(Ord::cmp(&b, &a))).into());
+   f.push(sh(&Ord::max(a.clone(), b.clone())));
+   f.push(sh(&Ord::min(a.clone(), b.clone())));
+   let mut v = vec![a.clone(), b.clone()];
+   v.sort_by(Ord::cmp);
+   f.push(format!("{} | {}", sh(&v[0]), sh(&v[1])));
+   let mut w = vec![a.clone(), b.clone()];
+   w.sort();
+   f.push(format!("{} | {}", sh(&w[0]), sh(&w[1])));
+   let set: BTreeSet<T> = [a.clone(), b.clone()].into_iter().collect();
+   f.push(set.iter().map(|x| sh(x)).collect::<Vec<_>>().join(" | "));
+   f.push(match v.binary_search(&b) {
+      Ok(i) => i.to_string(),
+      Err(_) => "!".into(),
+   });
+   f.push(sh(&std::cmp::max_by(a.clone(), b.clone(), Ord::cmp)));
+   f.push(sh(&a.clone().clamp(v[0].clone(), v[1].clone())));
+   f.join(" ; ")
+}
+
+type OrdOpsF = Option<fn(&mut Toks) -> String>;
+
+fn run<T: Lattice + Clone + PartialEq + Val>(mode: &str, toks: &mut Toks, cmpf: CmpF<T>, bndf: BndF<T>, oo: OrdOpsF) -> String {
    match mode {
       "2" => pair::<T>(toks, cmpf),
       "3" => triple::<T>(toks),
+      "O" => match oo {
+         Some(f) => f(toks),
+         None => "-".into(),
+      },
       "B" => match bndf {
          Some(f) => {
             let (b, t) = f();
@@ -324,6 +360,14 @@ macro_rules! ordf {
       None::<fn(&$t, &$t) -> Ordering>
    };
 }
+macro_rules! ordops {
+   (ord, $t:ty) => {
+      Some(ord_ops::<$t> as fn(&mut Toks) -> String)
+   };
+   (noord, $t:ty) => {
+      None::<fn(&mut Toks) -> String>
+   };
+}
 macro_rules! bndf {
    (b, $t:ty) => {
       Some((|| (<$t as BoundedLattice>::bottom(), <$t as BoundedLattice>::top())) as fn() -> ($t, $t))
@@ -336,7 +380,7 @@ macro_rules! table {
    ($( $tag:literal => $t:ty, $o:ident, $b:ident; )*) => {
       fn dispatch(mode: &str, tag: &str, toks: &mut Toks) -> String {
          match tag {
-            $( $tag => run::<$t>(mode, toks, ordf!($o, $t), bndf!($b, $t)), )*
+            $( $tag => run::<$t>(mode, toks, ordf!($o, $t), bndf!($b, $t), ordops!($o, $t)), )*
             _ => panic!("unknown tag {}", tag),
          }
       }
@@ -423,6 +467,26 @@ table! {
    "cp_set" => ConstPropagation<Set<i32>>, noord, b;
    "cp_cp" => ConstPropagation<ConstPropagation<bool>>, noord, b;
    "cp_rev" => Reverse<ConstPropagation<i32>>, noord, b;
+   // tuple lattices (join_mut / meet_mut through Ord::cmp) with Dual / Reverse / Option components at every position, and wrappers around them
+   "tup_du" => (Dual<i32>, i32), ord, b;
+   "tup_ud" => (i32, Dual<i32>), ord, b;
+   "tup_dd" => (Dual<i32>, Dual<bool>), ord, b;
+   "tup_ru" => (Reverse<i32>, bool), ord, b;
+   "tup_od" => (Option<i32>, Dual<bool>), ord, b;
+   "tup_udu" => (bool, Dual<i32>, i32), ord, b;
+   "tup_dud" => (Dual<bool>, i32, Dual<i32>), ord, b;
+   "tup_nest_d" => ((Dual<i32>, bool), Reverse<bool>), ord, b;
+   "dual_tup" => Dual<(i32, bool)>, ord, b;
+   "dual_tup_d" => Dual<(Dual<i32>, bool)>, ord, b;
+   "rev_tup_d" => Reverse<(bool, Dual<i32>)>, ord, b;
+   "opt_tup_d" => Option<(Dual<i32>, bool)>, ord, b;
+   "ord_tup_d" => OrdLattice<(Dual<i32>, i32)>, ord, nb;
+   "ord_dual" => OrdLattice<Dual<i32>>, ord, nb;
+   "rc_tup_d" => Rc<(Dual<i32>, bool)>, ord, nb;
+   "box_tup_d" => Box<(bool, Dual<i32>)>, ord, nb;
+   "set_dual" => Set<Dual<i32>>, noord, nb;
+   "prod_tup_d" => Product<((Dual<i32>, bool), i32)>, noord, b;
+   "arr_tup_d" => Product<[(Dual<i32>, bool); 2]>, noord, b;
 }
 
 fn main() {
